@@ -95,6 +95,21 @@ def gen_schedule(rng, i, tier):
         files[sp_] = files[sp_].rstrip('\n') + rng.choice(['', '\n\n\n', '  \n', '\n# end'])
     snap = {r: c.encode('utf-8') for r, c in files.items()}
     snap['elsewhere/'] = None
+    if rng.random() < 0.12 or i % 10 == 6:
+        # a statement as another program exported it: UTF-16 with a byte-order mark ("Unicode text"), or Windows-1252 with one accented
+        # letter.  Whatever the commands make of it, they do not write next to it
+        dfs = sorted(base + s_['file'] for s_ in b['sources'] if base + s_['file'] in snap)
+        if dfs:
+            k_ = rng.choice(dfs)
+            t_ = snap[k_].decode('utf-8')
+            if rng.random() < 0.5:
+                snap[k_] = b'\xff\xfe' + t_.encode('utf-16-le')
+            else:
+                t2 = t_.replace('E', '\u00c9', 1) if 'E' in t_ else t_ + 'CAF\u00c9\n'
+                try:
+                    snap[k_] = t2.encode('cp1252')
+                except UnicodeEncodeError:
+                    snap[k_] = b'\xff\xfe' + t_.encode('utf-16-le')
     cfg = base + 'config'
     data_files = [base + s['file'] for s in b['sources']]
     cats = sorted({it['category'] for it in b['csv_rules']} |
@@ -201,6 +216,12 @@ def gen_step(rng, b, cfg, data_files, cats, views, words, tier):
                 argv.append('--migrate')
             else:
                 tty = {'stdin': True, 'stdout': True, 'answers': ['y']}
+                if rng.random() < 0.5:
+                    # while tally waits at the prompt the user saves a rules file of their own (or a sync client delivers one), then says yes
+                    mine = rng.choice(['# saved while tally was asking\n[Mine]\nmatch: contains("MINE")\ncategory: Personal\nsubcategory: Own\n',
+                                       '[Late]\nmatch: contains("LATE")\ncategory: Misc\nsubcategory: Late\ntags: late\n'])
+                    where = rng.choice(['/merchants.rules', '/merchants.rules', '/merchant_categories.csv.bak', '/merchants.rules.bak'])
+                    tty['answers'] = [{'answer': 'y', 'actor': {'write': {cfg + where: mine}}}]
         elif kind == 'decline':
             tty = {'stdin': True, 'stdout': True,
                    'answers': rng.choice([['n'], ['N'], ['no'], ['maybe'], [''], ['<EOF>'], ['<KBI>'], ['yes'], []])}
@@ -399,7 +420,13 @@ def check_step(sched, step, pre, post, r):
         # a requested migration may replace rule files, but never lose what the user had in them: every pre-existing
         # rules / backup file content must still be the content of some file (the original is "kept as a backup")
         have = set(c_ for c_ in post.values() if c_ is not None)
-        for p_, c_ in sorted(pre.items()):
+        pre_user = dict(pre)
+        for a_ in (step.get('tty') or {}).get('answers') or []:
+            if isinstance(a_, dict):
+                for rel_, text_ in ((a_.get('actor') or {}).get('write') or {}).items():
+                    if any(e_.get('k') == 'actor' and e_.get('path') == rel_ for e_ in r.events):
+                        pre_user[rel_] = text_.encode('utf-8')      # saved by the user while tally waited at the prompt: theirs like any other file
+        for p_, c_ in sorted(pre_user.items()):
             if c_ and os.path.dirname(p_) == cfg and classify_path(p_) in ('rules', 'csv-rules') and c_ not in have:
                 bad('BAK', p_, 'lost (its content is in no file any more)')
         if csv_pre is not None and post.get(cfg + '/merchant_categories.csv') != csv_pre:
